@@ -113,6 +113,7 @@ func exhBinary(x, y string) []string {
 		x + " | " + y, x + ", " + y, "(" + x + ") + (" + y + ")", "(" + x + ") // (" + y + ")", "(" + x + ") and (" + y + ")",
 		"(" + x + ") == (" + y + ")", "(" + x + ") < (" + y + ")", "(" + x + ") - (" + y + ")",
 		"if " + x + " then " + y + " else 0 end", "if " + x + " then 0 else " + y + " end", "if " + x + " then " + y + " end",
+		"if " + x + " then . elif " + y + " then . end", "[.[]?] | map(if " + x + " then " + y + " end)?", "path(if " + x + " then " + y + " end)",
 		"try (" + x + ") catch (" + y + ")", "reduce (" + x + ") as $x (0; " + y + ")", "reduce (" + x + ") as $x (" + y + "; . + 1)",
 		"foreach (" + x + ") as $x (0; " + y + ")", "foreach (" + x + ") as $x (0; 1; " + y + ")",
 		"(" + x + ") as $x | " + y, "(" + x + ") as $x | [$x, (" + y + ")]", "(" + x + ") as [$a] ?// $a | [$a, (" + y + ")]",
@@ -264,6 +265,9 @@ func (g *rgen) pathExpr(budget int, sc gscope) string {
 	case 5:
 		return "select(" + g.query(h, sc) + ")"
 	case 6:
+		if g.r.Chance(1, 3) {
+			return "if " + g.query(h, sc) + " then " + g.pick(".", g.pathExpr(h, sc)) + " end"
+		}
 		return "if " + g.query(h, sc) + " then " + g.pathExpr(h, sc) + " else " + g.pathExpr(h, sc) + " end"
 	case 7:
 		return "(" + g.pathExpr(h, sc) + " // " + g.pathExpr(h, sc) + ")"
@@ -788,9 +792,9 @@ func streamC01(c *Ctx) {
 	// path arguments, boundary numbers.  They are hand-picked, so the `dangerous` filter does not apply.
 	handPicked = true
 	for _, f := range firstBlocks() {
-		per := map[string]int{"regress": len(f.ins), "scope": 2, "callee": 3, "boundary": 2, "marker": 2, "opt": 3, "redef": 2, "pattern": 2, "label": 2}[f.name]
+		per := map[string]int{"regress": len(f.ins), "scope": 2, "callee": 3, "boundary": 2, "marker": 2, "opt": 3, "redef": 2, "pattern": 2, "label": 2, "ifelse": 2, "alias": 2, "bigint": 2, "intbound": 3}[f.name]
 		for i, src := range f.progs {
-			if quick && (f.name == "scope" || f.name == "marker" || f.name == "pattern") && i%3 != int(c.Seed%3) {
+			if quick && (f.name == "scope" || f.name == "marker" || f.name == "pattern" || f.name == "ifelse" || f.name == "bigint" || f.name == "intbound") && i%3 != int(c.Seed%3) {
 				continue // a third per quick run; everything in the thorough tier
 			}
 			if quick {
